@@ -300,7 +300,25 @@ SerdeViol(r) ==
       [] r[1] = 7 ->        \* natural representation round trip
            (IF r[7] = 1 /\ r[8] = 1 THEN {} ELSE {<<"C19", "natural-representation-roundtrip">>})
 
+(******************************** table `misc` *****************************)
+(* growth beyond the listed properties: derived Ord / Eq / Hash follow the table order *)
+RECURSIVE LexCmp(_, _)
+LexCmp(a, b) == IF a = <<>> THEN 1
+                ELSE IF Head(a) < Head(b) THEN 0 ELSE IF Head(a) > Head(b) THEN 2 ELSE LexCmp(Tail(a), Tail(b))
+MiscViol(r) ==
+    CASE r[1] = 0 ->
+           LET a == Sub(r, 2, 4)  b == Sub(r, 6, 4) IN
+           (IF r[10] = LexCmp(a, b) THEN {} ELSE {<<"GROWTH", "structured-ord">>})
+           \cup (IF r[11] = B2I(a = b) THEN {} ELSE {<<"GROWTH", "structured-eq">>})
+           \cup (IF a = b => r[12] = 1 THEN {} ELSE {<<"GROWTH", "structured-hash">>})
+           \cup (IF r[13] = B2I(BytesOf(a) = BytesOf(b)) THEN {} ELSE {<<"GROWTH", "raw-eq">>})
+      [] r[1] = 1 -> (IF r[4] = (IF r[2] < r[3] THEN 0 ELSE IF r[2] = r[3] THEN 1 ELSE 2) /\ r[5] = B2I(r[2] = r[3])
+                      THEN {} ELSE {<<"GROWTH", "type-ord">>})
+      [] r[1] = 2 -> (IF r[2] = 128 /\ r[3] = 255 THEN {} ELSE {<<"GROWTH", "type-min-max">>})
+      [] r[1] = 3 -> (IF r[3] = B2I(r[2] <= 3) /\ (r[3] = 1 => r[4] = r[2]) THEN {} ELSE {<<"GROWTH", "time-code-type">>})
+
 RowViol(r) == CASE Table = "short" -> ShortViol(r)
+                [] Table = "misc" -> MiscViol(r)
                 [] Table = "serde" -> SerdeViol(r)
                 [] Table = "factory" -> FactoryViol(r)
                 [] Table = "pnmsg" -> PnmsgViol(r)
